@@ -302,6 +302,9 @@ type session struct {
 	ehHolds     []chan struct{}
 	consHold    chan struct{}
 	obsFail     map[[2]int]string
+	// firstDelivery: the first event of the session; its listener context is kept (an application that commits through a
+	// context it received earlier - "commitold")
+	firstDelivery *hx.Delivered
 	stopReaders []chan struct{}
 	readerWG    sync.WaitGroup
 }
@@ -738,6 +741,9 @@ func RunSession(spec *SessSpec) *Trace {
 	cons.OnEvent = func(d *hx.Delivered) {
 		s.pmu.Lock()
 		ch := s.consHold
+		if s.firstDelivery == nil {
+			s.firstDelivery = d
+		}
 		s.pmu.Unlock()
 		if ch != nil {
 			env.Log.Add(evlog.Rec{K: "cons.blocked", VB: int(d.VB), Seq: d.Seq})
@@ -1036,6 +1042,15 @@ func RunSession(spec *SessSpec) *Trace {
 				s.holdCh = nil
 			}
 			s.pmu.Unlock()
+		case "commitold": // Commit() through the listener context of the first event of the session
+			s.pmu.Lock()
+			fd := s.firstDelivery
+			s.pmu.Unlock()
+			if fd != nil {
+				env.Log.Add(evlog.Rec{K: "ctl.commit.call", VB: -1, S: "old-context"})
+				fd.Commit()
+				env.Log.Add(evlog.Rec{K: "ctl.commit.ret", VB: -1, S: "old-context"})
+			}
 		case "commitasync":
 			go full.Commit()
 			// give the save a chance to reach the store call
